@@ -62,20 +62,21 @@ def negp():
                              "only": [["p", 1], ["p", 2], ["k", 1], ["q q", 1], ["q", 1]]}})
 
 def agg():
-    """count aggregate, nullary output, internal relation with a constraint, ternary input (last-column probes)."""
+    """count aggregate (Datalog.tla counts valuations of named variables, so the aggregate body names its variables, as the
+    generator does), internal relation with a constraint, ternary input (last-column probes)."""
     x, y, n = V("x"), V("y"), V("n")
     return finish({"id": "api_agg", "rels": [rel("in0", "isi", inp=True), rel("hid", "ii"), rel("cnt", "i", out=True),
-                                             rel("big", "", out=True), rel("sel", "isi", out=True)],
+                                             rel("big", "i", out=True), rel("sel", "isi", out=True)],
                    "clauses": [cl(atom("hid", x, y), atom("in0", x, ANY, y), cmp_("LT", x, y)),
                                cl(atom("cnt", n), {"k": "agg", "op": "count", "res": n, "tgt": {"k": "nil"},
-                                                   "body": [atom("hid", ANY, ANY)], "outer": []}),
-                               cl(atom("big"), atom("cnt", n), cmp_("GE", n, N(2))),
+                                                   "body": [atom("hid", V("u"), V("v"))], "outer": []}),
+                               cl(atom("big", n), atom("cnt", n), cmp_("GE", n, N(2))),
                                cl(atom("sel", x, V("s"), y), atom("in0", x, V("s"), y), atom("hid", x, y))],
                    "strata": [["in0"], ["hid"], ["cnt"], ["big"], ["sel"]],
                    "univ": {"in0": [[1, "u", 2], [1, "u", 3]]},
                    "files": {"in0": [[2, "v", 5], [4, "w", 1]]},
                    "probe": {"in0": [[1, "u", 2], [1, "u", 3], [1, "u", 4], [4, "w", 1]], "hid": [[1, 2], [1, 3], [4, 1]],
-                             "cnt": [[0], [1], [2], [3]], "big": [[]],
+                             "cnt": [[0], [1], [2], [3]], "big": [[1], [2], [3]],
                              "sel": [[1, "u", 2], [1, "u", 3], [1, "u", 5], [2, "v", 5], [4, "w", 1]]}})
 
 def mutual():
